@@ -9,7 +9,7 @@ SPEC = {
                     "valid index ranges only (i <= j <= len): outside them Go panics or over-extends, excluded by the property"],
 }
 META = {
-  "text": "Coq theorems (Props/C12.v, 13, closed under the global context) state for ALL slices, index ranges, predicates and argument lists that the model of each sliceOps function equals its list/set specification (whole backing array for Remove/Cut/FilterInPlace/Pop; NoDup + exact membership for the set functions, Disjoin = 'exactly one argument contains x'). The model is tied to /repo on every run by executing the real functions (int, string and pointer element types) on every equality pattern up to a length bound plus random inputs and comparing in Coq.",
+  "text": "Coq theorems (Props/C12.v, 14, closed under the global context) state for ALL slices, index ranges, predicates and argument lists that the model of each sliceOps function equals its list/set specification (whole backing array for Remove/Cut/FilterInPlace/Pop; NoDup + exact membership for the set functions, Disjoin = 'exactly one argument contains x'); C12_filter_stateful covers predicates that are closures with state: one ordered pass, each element offered exactly once). The model is tied to /repo on every run by executing the real functions (int, string and pointer element types) on every equality pattern up to a length bound plus random inputs (FilterInPlace also with five stateful predicates, the elements offered to the predicate recorded) and comparing in Coq.",
   "design_ref": "DESIGN.md section 7, C12",
   "note": "Trusted: Coq kernel + vm_compute; the hand-written model (validated by this run's cases only); builtin copy/append/map semantics modelled by contract; result/input aliasing is outside the value-semantics model (inputs are snapshotted by the harness).",
   "technique": "Coq proof of list/set specifications over an executable model + differential correspondence (vm_compute) against the Go code",
